@@ -4,23 +4,6 @@ From Coq Require Import ZifyBool.
 Local Open Scope Z_scope.
 Ltac Zify.zify_post_hook ::= Z.div_mod_to_equations.
 
-Definition Half : Z := Wfull / 2.
-Lemma Half_facts : Wfull = 2 * Half /\ two63 <= Half.
-Proof. unfold Half. split; [apply Wfull_half | apply two63_le_half]. Qed.
-
-Lemma sval_bounds x : wf x -> - Half <= sval x < Half.
-Proof. apply sval_range. Qed.
-
-(* |x| as computed by the code (abs, or the conditional negation of idivmod) *)
-Lemma absval x : wf x ->
-  let a := if isneg x then bunm x else x in
-  wf a /\ uval a = Z.abs (sval x).
-Proof.
-  intros Hx. pose proof (abs_correct x Hx) as (A & B). unfold babs in *. cbn zeta.
-  split; [exact A|]. rewrite B. destruct Half_facts as (E & _). pose proof (sval_bounds x Hx).
-  apply Z.mod_small. unfold two63 in *. lia.
-Qed.
-
 (* reading back a result known modulo W *)
 Lemma sval_of x v : wf x -> uval x = v mod Wfull -> - Half <= v < Half -> sval x = v.
 Proof. intros. apply sval_of_mod; auto. Qed.
